@@ -114,6 +114,14 @@ def {name}({", ".join(args)}) -> bool:
 
 
 
+# complete split of the cross-joined template (inputs F G F and F F, one cut each) by the row each cut falls in
+XREGIONS = [
+    (a + b, (pa, pb))
+    for a, pa in (("c0", "c0_0 < l0_0"), ("gap", "l0_0 <= c0_0 and c0_0 <= l0_0 + g0_1"), ("c2", "c0_0 > l0_0 + g0_1"))
+    for b, pb in (("L", "c1_0 <= l1_0"), ("R", "c1_0 > l1_0"))
+]
+
+
 def sfx(cs, ps):
     f = lambda t: "".join("p" if x == 1 else "m" for x in t)  # noqa: E731
     return f"c{f(cs)}_b{f(ps)}"
